@@ -609,6 +609,20 @@ func (ex *Exec) unknownCall(st *State, fr *Frame, key string, args []Val, sig *t
 		ex.havocReachableCells(st, a)
 	}
 	ex.havocAll(st, true)
+	// a closure of this module handed to unknown code may be run by it (any
+	// number of times): everything the closure can write is arbitrary
+	// afterwards, protected state included
+	for _, a := range args {
+		if a.Kind == VClosure && a.Fn != nil && inRepo(a.Fn) && len(a.Fn.Blocks) > 0 {
+			ms := ex.modSetOf(a.Fn, 0)
+			if ms.all || ms.ext {
+				ex.havocAll(st, false)
+			} else {
+				ex.applyModSet(st, ms)
+			}
+			st.note("closure " + a.Fn.String() + " passed to unknown callee " + key + ": its effects are havocked")
+		}
+	}
 	st.bumpAlloc()
 	rs := ex.havocResults(st, sig)
 	for i, r := range rs {
@@ -1045,6 +1059,11 @@ func (ex *Exec) havocLvalue(st *State, m string, env *Env) error {
 				return fmt.Errorf("undeclared ghost %s", x.Sel)
 			}
 			hn := "G|" + x.Sel
+			if x.Sel == "$hstate" {
+				// mutable library object: a write to one that existed at entry
+				// is a frame violation of the caller
+				ex.writeCheck(st, ex.curFr, hn, ex.idOf(base), TrueT, "callee writes "+m, "")
+			}
 			h := st.heap(hn, ArraySort(g.Sort))
 			nv := st.fresh("hv"+x.Sel, g.Sort)
 			st.setHeap(hn, Store(h, ex.idOf(base), nv))
